@@ -35,6 +35,8 @@ struct Shared {
     global_registered: usize,
     xorbs: Vec<RawXorbData>,
     want_second_pass: bool,
+    /// answer every query with the longest truthful run and never miss (pattern 5: C11 "covered" histories)
+    honest: bool,
 }
 
 struct Scripted(Arc<Mutex<Shared>>);
@@ -45,6 +47,14 @@ fn find_answer(sh: &mut Shared, q: &[MerkleHash]) -> Option<(usize, FileDataSequ
     let mut cands: Vec<(usize, usize)> = Vec::new();
     for (xi, (_, chunks)) in sh.store.iter().enumerate() { for (ci, (h, _)) in chunks.iter().enumerate() { if *h == q[0] { cands.push((xi, ci)); } } }
     if cands.is_empty() { return None; }
+    if sh.honest {
+        let run_len = |xi: usize, ci: usize| { let chunks = &sh.store[xi].1; let mut n = 0; while ci + n < chunks.len() && n < q.len() && chunks[ci + n].0 == q[n] { n += 1; } n };
+        let (xi, ci) = *cands.iter().max_by_key(|(xi, ci)| run_len(*xi, *ci)).unwrap();
+        let n = run_len(xi, ci);
+        let (xh, chunks) = &sh.store[xi];
+        let bytes: usize = chunks[ci..ci + n].iter().map(|c| c.1).sum();
+        return Some((n, FileDataSequenceEntry::new(*xh, bytes, ci, ci + n)));
+    }
     if rng.chance(1, 12) { return None; }                                   // a miss is always allowed
     let (xi, ci) = cands[rng.below(cands.len() as u64) as usize];          // any duplicate
     let (xh, chunks) = &sh.store[xi];
@@ -97,7 +107,9 @@ pub fn file_info_str(f: &MDBFileInfo) -> String {
             f.verification.iter().map(|v| v.range_hash.hex()).collect::<Vec<_>>().join(","), f.metadata_ext.as_ref().map(|m| m.sha256.hex()).unwrap_or("-".into()))
 }
 
-struct FileRun { line: String, agg: DataAggregator, hash: MerkleHash, metrics: DeduplicationMetrics, total_fed: usize, xorbs: Vec<RawXorbData>, chunks: Vec<(MerkleHash, usize)>, answer: String }
+struct FileRun { line: String, agg: DataAggregator, hash: MerkleHash, metrics: DeduplicationMetrics, total_fed: usize, xorbs: Vec<RawXorbData>, chunks: Vec<(MerkleHash, usize)>, answer: String,
+                 /// every `deduped_blocks` slot the second loop consulted held an answer of at least 8 chunks (C11_repeat_free_real_estimator)
+                 covered8: bool }
 
 /// build one file out of fresh chunks and chunks of known xorbs, feed it in blocks, log everything
 fn run_file(rt: &tokio::runtime::Runtime, rng: &mut Rng, shared: &Arc<Mutex<Shared>>, pattern: u64) -> FileRun {
@@ -122,6 +134,11 @@ fn run_file(rt: &tokio::runtime::Runtime, rng: &mut Rng, shared: &Arc<Mutex<Shar
             3 => { // self-repetition: repeat earlier chunks of this very file
                 if !chunks.is_empty() && r < 6 { let s = rng.below(chunks.len() as u64) as usize; let n = (rng.range(1, 12) as usize).min(chunks.len() - s); let rep: Vec<Chunk> = chunks[s..s + n].to_vec(); chunks.extend(rep); }
                 else { chunks.push(mk(rand_hash(rng), rng.range(1, 50) as usize)); } }
+            5 => { // only content the store knows, in runs of at least 8 chunks (fed in one call, answered honestly)
+                let long: Vec<&Vec<(MerkleHash, usize)>> = store_snapshot.iter().filter(|x| x.len() >= 8).collect();
+                if long.is_empty() { break; }
+                let x = *rng.pick(&long); let s = rng.below((x.len() - 7) as u64) as usize; let n = rng.range(8, (x.len() - s) as u64) as usize;
+                chunks.extend(x[s..s + n].iter().map(|(h, l)| mk(*h, *l))); }
             _ => { if r < 3 { chunks.extend(old_run(rng, 60)); } else if r < 5 && !chunks.is_empty() { let c = chunks[rng.below(chunks.len() as u64) as usize].clone(); chunks.push(c); } else { chunks.push(mk(rand_hash(rng), rng.range(1, 50) as usize)); } }
         }
         if chunks.len() > nchunks + 80 { break; }
@@ -133,8 +150,10 @@ fn run_file(rt: &tokio::runtime::Runtime, rng: &mut Rng, shared: &Arc<Mutex<Shar
     let mut calls = Vec::new();
     let mut pos = 0;
     let mut total_fed = 0;
+    let mut covered8 = true;
+    shared.lock().unwrap().honest = pattern == 5;
     while pos < chunks.len() {
-        let n = (match rng.below(4) { 0 => 1, 1 => rng.range(1, 5), _ => rng.range(1, 300) } as usize).min(chunks.len() - pos);
+        let n = if pattern == 5 { chunks.len() } else { (match rng.below(4) { 0 => 1, 1 => rng.range(1, 5), _ => rng.range(1, 300) } as usize).min(chunks.len() - pos) };
         let block = &chunks[pos..pos + n];
         { let mut sh = shared.lock().unwrap(); sh.log.clear(); sh.pass = 0; sh.want_second_pass = sh.rng.as_mut().unwrap().chance(1, 3); }
         rt.block_on(fd.process_chunks(block)).unwrap();
@@ -148,12 +167,17 @@ fn run_file(rt: &tokio::runtime::Runtime, rng: &mut Rng, shared: &Arc<Mutex<Shar
                 if *pass == 1 { gc += k; gb += fse.unpacked_segment_bytes as usize; }
             }
         }
+        // follow the second loop: from slot 0, an answer of k chunks leads to slot + k
+        { let mut at: BTreeMap<usize, usize> = BTreeMap::new();
+          for (_, qlen, a) in sh.log.iter() { if let Some((k, _)) = a { at.insert(n - qlen, *k); } }
+          let mut p = 0; while p < n { match at.get(&p) { Some(k) if *k >= 8 => p += *k, _ => { covered8 = false; break; } } } }
         drop(sh);
         let cs = block.iter().map(|c| format!("{}:{}", c.hash.hex(), c.data.len())).collect::<Vec<_>>().join(",");
         calls.push(format!("{cs}@{}@{gc}@{gb}", if answers.is_empty() { "-".to_string() } else { answers.join(";") }));
         total_fed += block.iter().map(|c| c.data.len()).sum::<usize>();
         pos += n;
     }
+    shared.lock().unwrap().honest = false;
     let xorbs: Vec<RawXorbData> = std::mem::take(&mut shared.lock().unwrap().xorbs);
     let (fh, agg, metrics, new_xorbs) = fd.finalize(salt, Some(FileMetadataExt::new(sha)));
     let fi = &agg.pending_file_info[0];
@@ -161,7 +185,7 @@ fn run_file(rt: &tokio::runtime::Runtime, rng: &mut Rng, shared: &Arc<Mutex<Shar
     let line = format!("{salt_hex}/{}/{}", sha.hex(), if calls.is_empty() { "-".into() } else { calls.join("|") });
     let answer = format!("fh={} segs={} refs={} m={} cut={} nx={} rest={}:{}", fh.hex(), segs_str(&fi.0.segments), crate::ctx::join(&fi.1), metrics_str(&metrics),
                          xorbs.iter().map(xorb_str).collect::<Vec<_>>().join(","), new_xorbs.iter().map(|h| h.hex()).collect::<Vec<_>>().join(","), agg.num_chunks(), agg.num_bytes());
-    FileRun { line, agg, hash: fh, metrics, total_fed, xorbs, chunks: chunks.iter().map(|c| (c.hash, c.data.len())).collect(), answer }
+    FileRun { line, agg, hash: fh, metrics, total_fed, xorbs, chunks: chunks.iter().map(|c| (c.hash, c.data.len())).collect(), answer, covered8 }
 }
 
 pub fn run_child(ctx: &mut Ctx) {
@@ -175,13 +199,20 @@ pub fn run_child(ctx: &mut Ctx) {
         // now and then reset the store (a new "world"), or plant late shards for the global-dedup second pass
         if fno % 25 == 0 { let mut sh = shared.lock().unwrap(); sh.store.clear(); sh.late.clear(); for _ in 0..rng.below(4) { let n = rng.range(1, 60) as usize; let cs: Vec<(MerkleHash, usize)> = (0..n).map(|_| (rand_hash(&mut rng), rng.range(1, 50) as usize)).collect(); sh.store.push((rand_hash(&mut rng), cs)); } }
         if rng.chance(1, 4) { let mut sh = shared.lock().unwrap(); let n = rng.range(1, 40) as usize; let cs: Vec<(MerkleHash, usize)> = (0..n).map(|_| (rand_hash(&mut rng), rng.range(1, 50) as usize)).collect(); sh.late.push((rand_hash(&mut rng), cs)); }
-        let pattern = rng.below(5);
+        let pattern = rng.below(6);
         let world: BTreeMap<MerkleHash, Vec<(MerkleHash, usize)>> = { let sh = shared.lock().unwrap(); sh.store.iter().chain(sh.late.iter()).cloned().collect() };
         let fr = run_file(&rt, &mut rng, &shared, pattern);
         let replay = format!("{{\"suite\":\"deduper\",\"seed\":{},\"file\":{},\"maxb\":{},\"maxc\":{},\"pattern\":{}}}", ctx.seed, fno, maxb, maxc, pattern);
 
         // ---- monitors on the implementation
         let m = &fr.metrics;
+        // C11 (C11_repeat_free_real_estimator): every consulted slot answered with a run of >= 8 chunks => nothing is stored again
+        if fr.covered8 && fr.total_fed > 0 {
+            ctx.stat("files_fully_answered_with_runs_of_8_or_more");
+            if m.new_bytes != 0 || m.new_chunks != 0 || !fr.xorbs.is_empty() || fr.agg.num_chunks() != 0 {
+                ctx.fail("C11", "answered-long-runs-stored-again", format!("every chunk of file {fno} ({} chunks, {} bytes) was answered by a lookup with a run of at least 8 chunks, yet new_bytes = {}, new_chunks = {}, {} xorbs cut, {} chunks left for the session xorb", fr.chunks.len(), fr.total_fed, m.new_bytes, m.new_chunks, fr.xorbs.len(), fr.agg.num_chunks()), replay.clone());
+            }
+        }
         if m.total_bytes != fr.total_fed { ctx.fail("C14", "metrics-double-count", format!("total_bytes {} != bytes fed {} (file {fno}, limits {maxb}/{maxc})", m.total_bytes, fr.total_fed), replay.clone()); }
         if m.new_bytes + m.deduped_bytes != m.total_bytes || m.new_chunks + m.deduped_chunks != m.total_chunks { ctx.fail("C14", "new-plus-deduped", format!("new + deduped != total (file {fno})"), replay.clone()); }
         if m.defrag_prevented_dedup_bytes > m.new_bytes || m.defrag_prevented_dedup_chunks > m.new_chunks { ctx.fail("C14", "prevented-exceeds-new", format!("withheld bytes {} > new bytes {} (file {fno})", m.defrag_prevented_dedup_bytes, m.new_bytes), replay.clone()); }
@@ -228,7 +259,7 @@ pub fn run_child(ctx: &mut Ctx) {
             ctx.op(&format!("dedup.file maxb={maxb} maxc={maxc} file={line}"), &format!("{answer} agg={} files={}", xorb_str(&x), files.iter().map(file_info_str).collect::<Vec<_>>().join(" ")));
             for f in &files { if f.segments.iter().any(|s| s.cas_hash == MerkleHash::default()) && x.num_bytes() > 0 { ctx.fail("C15", "unresolved-xorb-reference", format!("file record with a zero xorb hash after finalize (file {fno})"), replay.clone()); } }
         } else {
-            group.push(FileRun { agg: last.agg, ..FileRun { line: line.clone(), agg: DataAggregator::default(), hash, metrics: last.metrics, total_fed: last.total_fed, xorbs: vec![], chunks: vec![], answer: String::new() } });
+            group.push(FileRun { agg: last.agg, ..FileRun { line: line.clone(), agg: DataAggregator::default(), hash, metrics: last.metrics, total_fed: last.total_fed, xorbs: vec![], chunks: vec![], answer: String::new(), covered8: false } });
         }
         let _ = fr_chunks;
         // ---- dedup.multi: greedy aggregation of the collected odd files
@@ -248,7 +279,7 @@ pub fn run_child(ctx: &mut Ctx) {
             ctx.op(&format!("dedup.multi maxb={maxb} maxc={maxc} files={}", lines.join("#")), &outs.join(" ; "));
             ctx.stat("multi_ops");
         }
-        ctx.stat(&format!("pattern_{}", ["fresh", "mixed", "fragmented", "self_repeat", "long_old_runs"][pattern as usize]));
+        ctx.stat(&format!("pattern_{}", ["fresh", "mixed", "fragmented", "self_repeat", "long_old_runs", "known_runs_of_8_or_more"][pattern as usize]));
         ctx.stat_add("prevented_chunks", m_prevented(&group, &ctx.stats));
         ctx.case(fnv(line.as_bytes()), line.len() > 200);
     }
